@@ -1,10 +1,10 @@
 \* Reference configuration (family "main", quick, repaired design).  checks/c20.py runs every family
-\* ("main", "incl", "after", "expect") twice: Fixed = all six names (invariants only) and Fixed = {} with Dump (expectations
+\* ("main", "incl", "after", "expect", "expecthist") twice: Fixed = all six names (invariants only) and Fixed = {} with Dump (expectations
 \* for the replay; the invariants then hold for every job without a fired deviation).
 \* MaxNum = 2200: message numbers appear as number tokens in EXPECT statements.
 CONSTANTS Fixed = {"EmptyBodyPop", "IrpcEmptyOnce", "TokenStraddle", "ShiftExcess", "IrpPosNext", "IrpDoubleCleanup", "AllArgsLeadingEmpty"}
           HasAttrs = FALSE MaxNum = 2200 Family = "main" Tier = "quick"
 INIT Init
 NEXT Next
-INVARIANTS PositionIsPlanted NoCleanLineNamed PositionsIdentify ExpectExact ExpectProtocol
+INVARIANTS PositionIsPlanted NoCleanLineNamed PositionsIdentify ExpectExact ExpectProtocol PendingEmptyOutside
 CHECK_DEADLOCK FALSE
